@@ -600,6 +600,12 @@ impl Machine {
         // log::trace!("upper base:{}, upvalue:{}", upper_base, offset);
         let abs_pos = Self::get_upvalue_offset(upper_base, ov);
         let end = abs_pos + size as usize;
+        #[cfg(mimium_verif)]
+        assert!(
+            end <= self.stack.len(),
+            "mimium_verif: open upvalue read outside the stack: pos={abs_pos} size={size} stack_len={}",
+            self.stack.len()
+        );
         let slice = unsafe {
             let vstart = self.stack.as_slice().as_ptr().add(abs_pos);
             slice::from_raw_parts(vstart, size as usize)
@@ -1230,6 +1236,12 @@ impl Machine {
                     };
                 }
                 Instruction::GetGlobal(dst, gid, size) => {
+                    #[cfg(mimium_verif)]
+                    assert!(
+                        gid as usize + size as usize <= self.global_vals.len(),
+                        "mimium_verif: global read out of bounds: gid={gid} size={size} globals_len={}",
+                        self.global_vals.len()
+                    );
                     let gvs = unsafe {
                         let vstart = self.global_vals.as_ptr().offset(gid as _);
                         debug_assert!(!vstart.is_null());
@@ -1239,6 +1251,12 @@ impl Machine {
                     self.set_stack_range(dst as i64, gvs)
                 }
                 Instruction::SetGlobal(gid, src, size) => {
+                    #[cfg(mimium_verif)]
+                    assert!(
+                        gid as usize + size as usize <= self.global_vals.len(),
+                        "mimium_verif: global write out of bounds: gid={gid} size={size} globals_len={}",
+                        self.global_vals.len()
+                    );
                     let gvs = unsafe {
                         let vstart = self.global_vals.as_mut_ptr().offset(gid as _);
                         debug_assert!(!vstart.is_null());
